@@ -146,3 +146,11 @@ META["C09"] = {
     "text": "Exploration with a bounded-exhaustive part: a real in-process MOSN with two ping-pong pairings — HTTP/1.1 and 'boltpp' (bolt's wire format registered through the public codec API with pool mode PingPong) — on clusters limited to max_connections=3 (and max_requests=2 for the overflow route). All operation sequences of depth 2 (3 thorough) over {ok, delayed ok, 5xx, stall -> proxy timeout, late reply, close, RST, half response, connect failure, one-way} run sequentially on one downstream connection, plus random sequences of 12..40 operations and 8-way concurrent rounds that force breaker overflow. Checked: a request never arrives on an upstream connection that still has an unanswered request; a request never arrives on a connection whose previous exchange the proxy abandoned (300 ms timeout); at quiescence every pool's total equals the established sockets to that upstream in /proc/net/tcp and idle == total; afterwards 3 concurrent requests are admitted on 3 distinct connections and a 4th is refused while they are in flight.",
     "note": "The automaton counts an exchange as answered from the moment the upstream hands its reply to the socket (counting it after the write returned produced a false 'busy' alarm in an earlier version: the monitor's state must be updated atomically with what it shadows). Multiplexed pools (bolt, HTTP/2) are covered by the conservation checks of C10. GoAway and pool Shutdown are not driven.",
 }
+
+META["C12"] = {
+    "engine": "vworker",
+    "design_ref": "DESIGN.md §3 C12",
+    "technique": "three-way differential after every runtime update: live objects vs objects freshly built from the dumped configuration vs the harness's reference state of the update history, over a probe set; version-labelled replies of closed-loop clients during host / router swaps",
+    "text": "Exploration: a real in-process MOSN; 60 (600) histories of 1..30 runtime updates over {router add / update, add route, remove all routes, cluster add / update / delete, host replace / append / delete, xDS endpoint assignment with 1..3 localities, invalid and no-op updates} applied through the manager entry points the admin debug API and the xDS converters call; after EVERY step the configuration is dumped (InheritMosnconfig: the bytes a restart or hot upgrade loads), parsed, routers are rebuilt from it and compared with the live routers on 30 (host, path) probes, dumped host lists are compared with live host sets, and both with the reference state (last update wins, removed objects are gone, an endpoint assignment is the union of its localities). c12-traffic: 6 closed-loop clients per protocol (HTTP/1, bolt) while a writer swaps their cluster's hosts between two upstream sets and re-submits the router: every request must be answered by an upstream configured at some moment between its call and its return, none may fail.",
+    "note": "AddRoute / RemoveAllRoutes resolve their domain argument like a request host; only exact configured domains are generated, where that reading and the literal one agree. A first, unbuildable router configuration is accepted and stored by design (RDS) and cannot be served: reference states that cannot be built are not compared. The HTTP debug API exists only under the build tag mosn_debug and calls the same entry points; it is not driven separately.",
+}
